@@ -267,6 +267,9 @@ macro_rules! point_systems {
             }
             // centroid of every list of length 1..=4 over a 4-point alphabet
             let pts: Vec<[D; N]> = (0..4).map(|j| vec_from_r::<D, N>(&base::<D>(N, j))).collect();
+            // the same alphabet far from the origin (float tiers: 2^20 away in every coordinate), for the long lists: many
+            // points *and* large coordinates
+            let far: Vec<[D; N]> = pts.iter().map(|p| p.map(|x| if D::INTEGER || D::EXACT { x } else { x + rq::<D>((1 << 20, 1)) })).collect();
             let mut lists: Vec<Vec<usize>> = Vec::new();
             for len in 1..=4usize {
                 for idx in 0..4usize.pow(len as u32) {
@@ -294,6 +297,7 @@ macro_rules! point_systems {
                 lists.len(),
                 Guard::states(340).distinct(20),
                 |i, ctx| {
+                    let pts = if lists[i].len() > 12 && lists[i].len() % 3 == 0 { &far } else { &pts };
                     let list: Vec<$Pt<D>> = lists[i].iter().map(|&j| $mkp(pts[j])).collect();
                     if D::from_r((list.len() as i64, 1)).is_none() {
                         ctx.skip("the scalar type cannot hold n");
